@@ -223,6 +223,11 @@ def evaluate(world, drv, plan=None, model_faults=None, oracles=("C01", "C04", "C
     dirs = [hx(d["dir"]) for d in facts["dirs"]]
     skips = legit_skips(world, facts)
     reported = [bool(n) and iexit != 0 for n in named]
+    if obs.get("exc") not in (None, "KeyboardInterrupt", "Crash") and not m.get("crash") and iexit not in (0, None):
+        # the run died of an exception nobody caught (a traceback and a failure status): that is a failure report for every
+        # argument, whatever the traceback names
+        reported = [True for _ in named]
+        res["tags"].append("uncaught-exception")
     res["facts"] = facts
     res["skips"] = skips
     base = {"op": "oracle", "before": brows, "after": arows, "mounts": mounts}
@@ -355,6 +360,7 @@ def evaluate(world, drv, plan=None, model_faults=None, oracles=("C01", "C04", "C
         from urllib.parse import unquote_to_bytes
         from .sandbox import CLOCK_T0, CLOCK_STEP
         problems = []
+        listed_back = []
         trace = obs["trace"]
         moves = [i for i, rec in enumerate(trace) if rec[0] == "rename" and rec[2] == "ok"]
         for pth, datestr in dates:
@@ -380,6 +386,8 @@ def evaluate(world, drv, plan=None, model_faults=None, oracles=("C01", "C04", "C
                     want_ = ent[len(base_.rstrip(b"/")) + 1:]
                 if loc != want_:
                     problems.append("Path of %r decodes to %r, the entry trashed is %r (recorded form %r)" % (pth, loc, ent, want_))
+                elif any(d["dir"] == tdir_ and d["kind"] in ("home", "top", "alt") for d in facts["dirs"]) and b"\n" not in ent:
+                    listed_back.append((datestr.replace(b"T", b" ") + b" " + ent, pth))
             created = [i for i, rec in enumerate(trace) if rec[0] == "createExcl" and rec[2] == "ok" and rec[1] and
                        bytes.fromhex(rec[1][0]) == pth]
             if not created:
@@ -395,6 +403,22 @@ def evaluate(world, drv, plan=None, model_faults=None, oracles=("C01", "C04", "C
             if not (prev < k <= idx) or k != int(k):
                 problems.append("DeletionDate %s of %r is clock reading %s; the entry was trashed between calls %d and %d"
                                 % (datestr.decode(), pth, k, prev + 1, idx))
+        if listed_back and not problems and obs.get("exc") is None:
+            # ... and read back by a reader: trash-list, run on the state trash-put left, shows every new entry under the
+            # path it was trashed from (several volumes' trash directories are scanned in one run)
+            from . import readcheck
+            from .model import cmd_argv, world_from_state
+            wl = world_from_state(dict(world, cmd="list", opts={}, args=[], stdin=None,
+                                       meta={"entries": [], "tdirs": [], "profile": "c03w", "payload_kinds": []}),
+                                  snap_to_state(obs["after"]))
+            wl["argv"] = cmd_argv(wl)
+            rl = readcheck.evaluate(wl, drv, oracles=())
+            res["mismatch"] += [dict(m_, what="trash-list after trash-put: " + str(m_.get("what"))) for m_ in rl["mismatch"]]
+            lines_ = rl["stdout"].split(b"\n")
+            for line_, pth in listed_back:
+                if line_ not in lines_:
+                    problems.append("trash-list does not show %r for %r: %r" % (line_, pth, rl["stdout"][:300]))
+            res["tags"].append("c03w:listed-back")
         res["oracle"]["C03w"] = {"ok": not problems, "verdict": "C03.written-info: " + "; ".join(problems[:2]) if problems else "ok"}
         res["tags"].append("c03w:new-infos:%d" % min(len(dates), 3))
     if "C08" in oracles:
